@@ -108,6 +108,11 @@ def directed():
         D.append(("selector-" + sel, mk(5, ["* bcast 20000 1 0", "* reduce 20000 2 0", "* allreduce 20000 0", "* alltoall 2000 0", "* gather 2000 3 0",
                                             "* scatter 2000 3 0", "* allgather 2000 0", "* reducescatter 0 100 0 2000 50 7", "* scan 100 0", B],
                                         cfg=["--cfg=smpi/coll-selector:" + sel])))
+    # reductions alone under each selector (the replay gives them MPI_OP_NULL)
+    for sel in ("mpich", "ompi", "mvapich2", "impi"):
+        for nm, ln in [("reduce", "* reduce 20000 2 0"), ("allreduce", "* allreduce 20000 0"), ("reducescatter", "* reducescatter 0 100 30 2000 50 7"),
+                       ("scan", "* scan 100 0")]:
+            D.append(("selector-%s-%s" % (sel, nm), mk(5, [ln, B], cfg=["--cfg=smpi/coll-selector:" + sel])))
     # ompi selector, 8 ranks on 5 hosts: the large bcast goes through an algorithm that calls Comm::init_smp()
     D.append(("selector-ompi-large-bcast", mk(8, ["* bcast 27742 1 0", B], cfg=["--cfg=smpi/coll-selector:ompi"],
                                               hosts=["Bourassa", "Bourassa", "Fafard", "Ginette", "Tremblay", "Bourassa", "Jupiter", "Tremblay"])))
